@@ -552,14 +552,31 @@ def always_raises(ctx, py, mod, qual, rule="PY-ALWAYS-RAISES"):
 
 # =============================================================================================
 HALFOPEN = [
-    # (module, function, attribute compared, bound name, required operator, meaning)
-    ("tables", "TableCollection.keep_intervals", "position", "s", "GtE", "site kept iff s <= position"),
-    ("tables", "TableCollection.keep_intervals", "position", "e", "Lt", "site kept iff position < e (intervals are half-open)"),
-    ("tables", "TableCollection.keep_intervals", "right", "s", "LtE", "edge/migration dropped iff right <= s"),
-    ("tables", "TableCollection.keep_intervals", "left", "e", "GtE", "edge/migration dropped iff left >= e"),
-    ("tables", "TableCollection.ltrim", "position", "leftmost", "Lt", "sites strictly left of the first edge are deleted"),
-    ("tables", "TableCollection.rtrim", "position", "rightmost", "GtE", "sites at or right of the last edge end are deleted"),
+    # (module, function, attribute compared, bound role, required operator, meaning)
+    ("tables", "TableCollection.keep_intervals", "position", "interval-start", "GtE", "site kept iff s <= position"),
+    ("tables", "TableCollection.keep_intervals", "position", "interval-end", "Lt", "site kept iff position < e (intervals are half-open)"),
+    ("tables", "TableCollection.keep_intervals", "right", "interval-start", "LtE", "edge/migration dropped iff right <= s"),
+    ("tables", "TableCollection.keep_intervals", "left", "interval-end", "GtE", "edge/migration dropped iff left >= e"),
+    ("tables", "TableCollection.ltrim", "position", "min-left", "Lt", "sites strictly left of the first edge are deleted"),
+    ("tables", "TableCollection.rtrim", "position", "max-right", "GtE", "sites at or right of the last edge end are deleted"),
 ]
+
+
+def _bound_name(fn, role):
+    """Resolve the local that plays `role` from its definition, not from its spelling."""
+    for x in ast.walk(fn):
+        if role in ("interval-start", "interval-end") and isinstance(x, ast.For) and isinstance(x.target, ast.Tuple) \
+                and len(x.target.elts) == 2 and "intervals" in ast.unparse(x.iter):
+            e = x.target.elts[0 if role == "interval-start" else 1]
+            if isinstance(e, ast.Name):
+                return e.id
+        if isinstance(x, ast.Assign) and len(x.targets) == 1 and isinstance(x.targets[0], ast.Name):
+            v = ast.unparse(x.value)
+            if role == "min-left" and v == "np.min(self.edges.left)":
+                return x.targets[0].id
+            if role == "max-right" and v == "np.max(self.edges.right)":
+                return x.targets[0].id
+    return None
 
 
 def half_open(ctx, py, rule="PY-HALFOPEN"):
@@ -567,9 +584,13 @@ def half_open(ctx, py, rule="PY-HALFOPEN"):
                    "each (coordinate attribute, interval bound) pair is the one the half-open convention dictates, so sites and "
                    "edges are clipped consistently")
     n = 0
-    for mod, qual, attr, bound, op, why in HALFOPEN:
+    for mod, qual, attr, role, op, why in HALFOPEN:
         m = py.mod(mod)
         fn = py.func(mod, qual)
+        bound = _bound_name(fn, role)
+        if bound is None:
+            ctx.ob(rule, "%s|%s~%s" % (qual, attr, role), False, m.loc(fn), "no local plays the role `%s` (%s)" % (role, why))
+            continue
         found = []
         for c in ast.walk(fn):
             if isinstance(c, ast.Compare) and len(c.ops) == 1:
@@ -586,10 +607,10 @@ def half_open(ctx, py, rule="PY-HALFOPEN"):
                     found.append((flip.get(type(c.ops[0]).__name__, type(c.ops[0]).__name__), c))
         n += 1
         if not found:
-            ctx.ob(rule, "%s|%s~%s" % (qual, attr, bound), False, m.loc(fn), "no comparison of .%s with %s found (%s)" % (attr, bound, why))
+            ctx.ob(rule, "%s|%s~%s" % (qual, attr, role), False, m.loc(fn), "no comparison of .%s with %s found (%s)" % (attr, bound, why))
             continue
         bad = [f for f in found if f[0] != op]
-        ctx.ob(rule, "%s|%s~%s" % (qual, attr, bound), not bad, m.loc((bad or found)[0][1]),
+        ctx.ob(rule, "%s|%s~%s" % (qual, attr, role), not bad, m.loc((bad or found)[0][1]),
                "%s: .%s %s %s" % (why, attr, op, bound) if not bad else "%s compared with %s using %s, but %s requires %s" % (attr, bound, bad[0][0], why, op))
     return n
 
